@@ -966,3 +966,66 @@ def use_cycle(n, missing=True):
 
 
 FAMILIES["use_cycle"] = use_cycle
+
+
+# ------------------------------------------------------------------ built-in functions / procedures with the wrong number of arguments
+BUILTIN_FUNCTIONS = ["ABS", "ACOS", "ASIN", "ATAN", "BLENGTH", "COS", "EXISTS", "EXP", "FORMAT", "HIBOUND", "HIINDEX", "LENGTH", "LOBOUND",
+                     "LOG", "LOG10", "LOG2", "LOINDEX", "ODD", "ROLESOF", "SIN", "SIZEOF", "SQRT", "TAN", "TYPEOF", "VALUE", "VALUE_IN",
+                     "VALUE_UNIQUE", "NVL", "USEDIN"]
+BUILTIN_PROCEDURES = ["INSERT", "REMOVE"]
+
+
+def builtin_arity():
+    """(tag, data): every built-in called with 0..4 arguments, in DERIVE, WHERE, a function body, an aggregate bound"""
+    out = []
+    args = ["v", "l", "s", "1", "o"]
+    for fn in BUILTIN_FUNCTIONS:
+        for k in range(0, 5):
+            call = fn + ("(" + ", ".join(args[:k]) + ")" if k else "")
+            body = (f"ENTITY a;\n  v : INTEGER;\n  l : LIST OF INTEGER;\n  s : STRING;\n  o : OPTIONAL a;\n  b : LIST [0 : {call}] OF INTEGER;\n"
+                    f"DERIVE\n  d : INTEGER := {call};\nWHERE\n  wr1 : {call} = {call};\n  wr2 : SIZEOF([{call}]) > 0;\n  wr3 : f_arity({call}) > 0;\nEND_ENTITY;\n"
+                    f"FUNCTION f_arity(p : GENERIC) : INTEGER;\n  RETURN (1);\nEND_FUNCTION;\n"
+                    f"FUNCTION f_body(v : INTEGER; l : LIST OF INTEGER; s : STRING; o : INTEGER) : INTEGER;\n  LOCAL\n    r : INTEGER := 0;\n  END_LOCAL;\n"
+                    f"  r := {call};\n  IF {call} = 1 THEN\n    r := 1;\n  END_IF;\n  RETURN ({call});\nEND_FUNCTION;\n")
+            out.append((f"arity:{fn}:{k}", _sch(body)))
+    for pr in BUILTIN_PROCEDURES:
+        for k in range(0, 5):
+            call = pr + ("(" + ", ".join(["l", "1", "2", "3"][:k]) + ")" if k else "")
+            out.append((f"arity:{pr}:{k}", _sch(f"PROCEDURE p_arity(VAR l : LIST OF INTEGER);\n  {call};\nEND_PROCEDURE;\n"
+                                                 f"ENTITY a;\n  v : INTEGER;\nWHERE\n  wr1 : {call} = 1;\nEND_ENTITY;\n")))
+    return out
+
+
+# ------------------------------------------------------------------ string literals with apostrophes in the positions the printers measure
+def quoted_literal(pos, n, density):
+    """valid schema: a string literal of n characters of which round(n*density) are apostrophes (written '' in the source)"""
+    q = int(round(n * density))
+    step = max(1, n // q) if q else 0
+    chars = []
+    used = 0
+    for i in range(n):
+        if q and used < q and (i % step == 0):
+            chars.append("''")
+            used += 1
+        else:
+            chars.append("k")
+    lit = "'" + "".join(chars) + "'"
+    if pos == "case_label":
+        return _sch(f"FUNCTION f(s : STRING) : INTEGER;\n  CASE s OF\n    {lit} : RETURN (1);\n    OTHERWISE : RETURN (0);\n  END_CASE;\nEND_FUNCTION;\n"
+                    "ENTITY a;\n  v : STRING;\nWHERE\n  wr1 : f(v) = 1;\nEND_ENTITY;\n")
+    if pos == "case_label_rule":
+        return _sch("ENTITY a;\n  v : STRING;\nEND_ENTITY;\n"
+                    f"RULE r FOR (a);\n  LOCAL\n    k : INTEGER := 0;\n    s : STRING := '';\n  END_LOCAL;\n  CASE s OF\n    {lit}, 'x' : k := 1;\n  END_CASE;\nWHERE\n  wr1 : k >= 0;\nEND_RULE;\n")
+    if pos == "aggregate":
+        return _sch(f"ENTITY a;\n  v : STRING;\nWHERE\n  wr1 : v IN [{lit}, 'b'];\nEND_ENTITY;\nCONSTANT\n  c : LIST OF STRING := [{lit}];\nEND_CONSTANT;\n".replace("ENTITY a;", "ENTITY a;", 1)) \
+            if False else _sch(f"CONSTANT\n  c : LIST OF STRING := [{lit}];\nEND_CONSTANT;\nENTITY a;\n  v : STRING;\nWHERE\n  wr1 : v IN [{lit}, 'b'];\nEND_ENTITY;\n")
+    if pos == "argument":
+        return _sch(f"FUNCTION g(s : STRING; t : STRING) : INTEGER;\n  RETURN (LENGTH(s));\nEND_FUNCTION;\nENTITY a;\n  v : STRING;\nDERIVE\n  d : INTEGER := g({lit}, v);\nWHERE\n  wr1 : g(v, {lit}) > 0;\nEND_ENTITY;\n")
+    if pos == "where":
+        return _sch(f"ENTITY a;\n  v : STRING;\nWHERE\n  wr1 : v <> {lit};\n  wr2 : {lit} LIKE v;\nEND_ENTITY;\n")
+    if pos == "attribute_default":
+        return _sch(f"ENTITY a;\n  v : STRING;\nDERIVE\n  d : STRING := {lit};\nEND_ENTITY;\n")
+    raise ValueError(pos)
+
+
+QUOTED_POSITIONS = ["case_label", "case_label_rule", "aggregate", "argument", "where", "attribute_default"]
